@@ -40,7 +40,8 @@ branded values the program can currently use (`held`).  Steps:
 * `call s σ` — the program calls table entry `s`, instantiating its lifetime parameters by `σ`.
   For every lifetime of `inBrands` it must hold a value of brand `σ l` (one `σ` for all occurrences:
   invariance); every other lifetime is instantiated as the caller likes.  It obtains values of brands
-  `σ l` for `l ∈ outBrands`;
+  `σ l` for `l ∈ outBrands`, and for every `l ∈ outRefs` that is a brand of the signature
+  (`Sig.outHeld`: a `&'gc T` / `&'gc Write<T>` / `Ref<'gc, T>` is held like a pointer);
 * `forget`   — values may be dropped at any time.
 
 `Sig.ok` (for a signature that code without `unsafe` can call) asks three things: every result brand
@@ -86,6 +87,13 @@ def Sig.brands (s : Sig) : List String := s.inBrands ++ s.outBrands
 `GcWeak<'gc, T>` and a `&Mutation<'m>`) could move a pointer from one arena to the other even though
 each result brand is the brand of *some* input. -/
 def Sig.singleBrand (s : Sig) : Bool := s.brands.all (fun l => s.brands.all (fun l' => l == l'))
+
+/-- The lifetimes of the values a call hands to the program that belong to an arena: the brands of
+its result (`Gc<'gc, T>`, `&Mutation<'gc>`, …) **and** the reference lifetimes of its result that are
+a brand of the signature (`&'gc T` from `Gc::as_ref`, `&'gc Write<T>` from `Gc::write`, `Ref<'gc, T>`
+from `borrow`, …: a reference into the arena is as much a branded value as a pointer). -/
+def Sig.outHeld (s : Sig) : List String :=
+  s.outBrands ++ s.outRefs.filter (fun l => s.brands.contains l)
 
 /-- Every brand of the result is the brand of an input; every reference lifetime of the result is a
 lifetime of an input; one brand only.  Identity only. -/
@@ -154,7 +162,7 @@ inductive Step (T : Table) : State → State → Prop where
       Step T st { st with active := rest, held := st.held.filter (· != b) }
   | call (st : State) (s : Sig) (σ : Subst) (mem : s ∈ T.sigs) (callable : s.callable = true)
       (inputs : ∀ l ∈ s.inBrands, σ l ∈ st.held) :
-      Step T st { st with held := s.outBrands.map σ ++ st.held }
+      Step T st { st with held := s.outHeld.map σ ++ st.held }
   | forget (st : State) (held' : List Brand) (sub : ∀ b ∈ held', b ∈ st.held) :
       Step T st { st with held := held' }
 
